@@ -28,9 +28,33 @@ def stale_export(w, rng):
     w.resize = False
 
 
+def twin_files(w, rng):
+    """A multi-file torrent with two files of the same length and content (a LICENSE shipped twice) that one piece
+    touches, and a single copy of them on disk under another name - the same candidate file serves both segments."""
+    import worldgen
+    F = worldgen.TFile
+    body = worldgen.rand_content(rng, rng.randint(1, 3))
+    head = F([b"h.bin"], worldgen.rand_content(rng, rng.randint(0, 3)))
+    a = F([b"docs", b"LICENSE"], body)
+    b = F([b"LICENSE"], body)
+    tail = F([b"t.bin"], worldgen.rand_content(rng, rng.randint(1, 4)))
+    t = worldgen.TorrentSpec(b"twins%d" % rng.randint(0, 99), rng.choice([8, 16]), [head, a, b, tail], False)
+    if any(t.info_hash == u.info_hash for u in w.torrents):
+        return
+    w.torrents.append(t)
+    w.presented = list(w.presented) + [len(w.torrents) - 1]
+    root = list(w.scans[0])
+    w.put_file(tuple(root + [b"tw_copying.txt"]), body)                      # the one copy, renamed
+    if rng.random() < 0.3:
+        w.put_file(tuple(root + [b"tw_other_name"]), body)                   # or two copies, both renamed
+    for k, f in ((0, head), (3, tail)):
+        if f.length:
+            w.put_file(tuple(root + [b"tw_%d" % k]), f.content)
+
+
 correspondence, search, replay, ASSUMPTIONS = runbase.make(
     "C02", [oracles.c02],
-    [("std", 170, 1700, {}, None), ("empties", 80, 900, {"empties": True}, None), ("stale", 50, 400, {}, stale_export)],
-    "generated worlds with 0-4 candidates per file and the correct one in every position, renamed/moved files, hard-linked duplicates, other torrents' export files as candidates, data that lives only inside the export directory outside every loaded torrent's export location (scan directory = export directory or above it), padding taken as zeros, empty files first/middle/last; availability computed from the initial snapshot by an independent oracle vs the export tree afterwards; every run replayed against the model",
+    [("std", 170, 1700, {}, None), ("empties", 80, 900, {"empties": True}, None), ("stale", 50, 400, {}, stale_export), ("twins", 24, 200, {}, twin_files)],
+    "(stream twins) two identical files of a torrent inside one piece with a single renamed copy on disk; generated worlds with 0-4 candidates per file and the correct one in every position, renamed/moved files, hard-linked duplicates, other torrents' export files as candidates, data that lives only inside the export directory outside every loaded torrent's export location (scan directory = export directory or above it), padding taken as zeros, empty files first/middle/last; availability computed from the initial snapshot by an independent oracle vs the export tree afterwards; every run replayed against the model",
     "the run is a behaviour of the model (index registration, ranking, pruning, exhaustive combination search, writer) - trace validation; completeness lemmas of the search on the model",
     ["hypotheses of the statement: no I/O fault during the run, witnesses stay in place (scan files are never written: C03; own export files only receive correct bytes: C01)"])
